@@ -94,7 +94,8 @@ def reflinks_layer(ck):
     t = 'Q' if ck.tier == 'quick' else 'T'
     # second alphabet {a, [, ], (, )}: the plainest inline destination (balanced parentheses) is tried first, then the reference forms
     jobs = [('RefLinks%s.cfg' % t, sh) for sh in ['a', '[', ']', '!']] + [('RefLinksP%s.cfg' % t, sh) for sh in ['a', '[', ']', '(', ')']] + \
-           [('RefLinksL%s.cfg' % t, sh) for sh in ['a', 'A', '[', ']']]           # third alphabet {a, A, [, ], space}: labels are compared case-folded
+           [('RefLinksN%s.cfg' % t, sh) for sh in ['a', '[', ']', '(', ')']] + \
+           [('RefLinksL%s.cfg' % t, sh) for sh in ['a', 'A', '[', ']']]           # {a, [, ], (, ), LF}: whitespace around the destination, a title in parentheses, line ends in link text and labels; {a, A, [, ], space}: labels are compared case-folded
 
     def one(job):
         return core.tlc('RefLinks', job[0], workers=1, env={'SHARD': job[1]}, timeout=3000, heap='2g')
@@ -124,7 +125,7 @@ def reflinks_layer(ck):
             if got != want:
                 ck.violation('LinkRefs.html: source=%r expected=%r observed=%r' % (src, want, got),
                              {'input': src, 'expected': htmlnorm.normalize(want), 'observed': htmlnorm.normalize(got), 'clause': 'LinkRefs.html', 'classes': []})
-    if n < 180000 or links < 10000:
+    if n < 350000 or links < 20000:
         raise core.MachineryError('RefLinks.tla exported only %d texts (%d with a link or image)' % (n, links))
     ck.extra['reflinks_texts'] = n
     ck.extra['reflinks_texts_with_reference'] = links
